@@ -5,8 +5,8 @@ from checks.harness import meta
 
 PROPERTY = "C12"
 LEVEL = "proof"
-LEAN_MODULES = ["Exetera.Props.C12"]
-BASES = ["c03", "c04", "c16", "c05", "c18"]
+LEAN_MODULES = ["Exetera.Props.C12", "Exetera.Props.C12Copy"]
+BASES = ["c03", "c04", "c16", "c05", "c18", "c12_copy"]
 MODES = {"quick": ["jit"], "thorough": ["jit", "nojit"], "search": ["jit"]}
 CASE_TIMEOUT = 15
 EXHAUSTIVE = {"quick": False, "thorough": False}
@@ -60,6 +60,10 @@ def check_spec(case, io, mode):
     if io.get("err") == "hang":
         return "did not finish within the watchdog budget (spins)"
     b = meta.base(case["_h"])
+    if case["_h"] == "c12_copy":
+        why = b.check_spec(case, io, mode)
+        if why:
+            return why
     bound = getattr(b, "step_bound", None)
     if bound and io.get("calls") is not None and io["calls"] > bound(case, io):
         return f"{io['calls']} kernel invocations exceed the linear bound {bound(case, io)}"
